@@ -166,10 +166,24 @@ def run(ctx):
                              "data": [[0] * n1 + [1] * n2, xs],
                              "a": {"dropna": rng.choice([True, False]), "idx": rng.choice([0, 1, -1, 5]), "q4": rng.choice([1, 2, 3])}})
         matrix.append(hist)
+    # two-helper calls are repeated over the data layouts whose groups are unsorted / tied / hold missing values
+    # (same kernels, no further compilation): what one helper does to the shared working column shows in the other
+    expanded = []
+    for h in chosen:
+        if any(e["t"] == "call" and e.get("h2") for e in h):
+            h2 = []
+            for e in h:
+                h2.append(e)
+                if e["t"] == "call":
+                    for lay in (3, 4, 5, 6):
+                        h2.append(dict(e, status="", layout_fixed=lay))
+            h = h2
+        expanded.append(h)
+    chosen = expanded
     for h in chosen:
         for e in h:
             if e["t"] == "call":
-                e["layout"] = rng.randrange(7)
+                e["layout"] = e.pop("layout_fixed") if "layout_fixed" in e else rng.randrange(7)
                 e["a"] = {"dropna": rng.choice([True, False]), "idx": rng.choice([0, 1, -1, 5]), "q4": rng.choice([1, 2, 3])}
     records = []
     with concurrent.futures.ThreadPoolExecutor(16) as ex:
